@@ -73,13 +73,18 @@ Proof.
 Qed.
 
 (* ---------- vinegar's part ---------- *)
+Definition faulty (path : bytes) (h : hspec) : bool := h_boom h path || act_raises (h_act h).
+
 Lemma logs_exception_witness path (hs : list hspec) :
-  logs_exception (map (to_handler path) hs) = true -> exists h, In h hs /\ act_raises (h_act h) = true.
+  logs_exception (map (to_handler path) hs) = true -> exists h, In h hs /\ faulty path h = true.
 Proof.
-  induction hs as [|h r IH]; cbn [map logs_exception to_handler prep_raises can_raises can act orb]; [discriminate|].
-  destruct (h_pred h path).
-  - intros H. exists h. split; [now left|exact H].
-  - intros H. destruct (IH H) as (h' & Hin & Hr). exists h'. split; [now right|exact Hr].
+  unfold faulty.
+  induction hs as [|h r IH]; cbn [map logs_exception to_handler prep_raises can_raises can act]; [discriminate|].
+  destruct (h_boom h path) eqn:Eb; cbn [orb].
+  - intros _. exists h. split; [now left|]. now rewrite Eb.
+  - destruct (h_pred h path).
+    + intros H. exists h. split; [now left|]. now rewrite Eb.
+    + intros H. destruct (IH H) as (h' & Hin & Hr). exists h'. split; [now right|exact Hr].
 Qed.
 
 Definition hspecs_ok (hs : list hspec) : bool := forallb (fun h => hact_ok (h_act h)) hs.
@@ -101,7 +106,7 @@ Definition reaction_ok (eof : bool) (hs : list hspec) (r : reaction) : Prop :=
       response_ok resp = true /\
       (simple = false -> parse_response w = Some resp) /\
       (simple = true -> w = r_body resp) /\
-      (internal = true -> exists h, In h hs /\ act_raises (h_act h) = true)
+      (internal = true -> exists h path, In h hs /\ faulty path h = true)
   end.
 
 Lemma vinegar_react_ok eof e hs simple m path : env_ok e = true -> hspecs_ok hs = true ->
@@ -112,7 +117,8 @@ Proof.
   split; [now apply expected_ok|]. split; [|split].
   - intros ->. now apply emit_wellformed.
   - now intros ->.
-  - destruct (bad_path path); [discriminate|]. apply logs_exception_witness.
+  - destruct (bad_path path); [discriminate|]. intros H.
+    destruct (logs_exception_witness _ _ H) as (h & Hin & Hf). now exists h, path.
 Qed.
 
 (* For EVERY byte string a client sends, with or without shutting down its side: nothing and close;
@@ -130,12 +136,12 @@ Qed.
 
 (* client bytes alone never reach the catch-all branches *)
 Theorem http_no_internal_error e hs eof data :
-  (forall h, In h hs -> act_raises (h_act h) = false) -> internal_of (react e hs eof data) = false.
+  (forall h path, In h hs -> faulty path h = false) -> internal_of (react e hs eof data) = false.
 Proof.
   intros Hn. unfold react. destruct (parse_head eof data) as [| |s c h|s m p]; try reflexivity.
   unfold vinegar_react. cbn [internal_of]. destruct (bad_path p); [reflexivity|].
   destruct (logs_exception (map (to_handler p) hs)) eqn:E; [|reflexivity].
-  destruct (logs_exception_witness _ _ E) as (h & Hin & Hr). rewrite (Hn h Hin) in Hr. discriminate.
+  destruct (logs_exception_witness _ _ E) as (h & Hin & Hr). rewrite (Hn h p Hin) in Hr. discriminate.
 Qed.
 
 Theorem bad_path_400 e hs simple m path : bad_path path = true ->
@@ -149,17 +155,18 @@ Proof.
   apply parse_render. now apply error_response_ok.
 Qed.
 
-Lemma expected_loop_none e path (hs : list hspec) : (forall h, In h hs -> h_pred h path = false) ->
+Lemma expected_loop_none e path (hs : list hspec) :
+  (forall h, In h hs -> h_pred h path = false /\ h_boom h path = false) ->
   expected_loop e (map (to_handler path) hs) = error_response e 404 /\
   logs_exception (map (to_handler path) hs) = false.
 Proof.
   induction hs as [|h r IH]; intros Hn; cbn [map expected_loop logs_exception to_handler prep_raises can_raises can act orb];
     [auto|].
-  rewrite (Hn h (or_introl eq_refl)). apply IH. intros h' Hin. apply Hn. now right.
+  destruct (Hn h (or_introl eq_refl)) as [-> ->]. cbn [orb]. apply IH. intros h' Hin. apply Hn. now right.
 Qed.
 
 Theorem no_handler_404 e hs simple m path : bad_path path = false ->
-  (forall h, In h hs -> h_pred h path = false) ->
+  (forall h, In h hs -> h_pred h path = false /\ h_boom h path = false) ->
   exists w, vinegar_react e hs simple m path = RVinegar simple w (error_response (set_head e m) 404) false.
 Proof.
   intros Hb Hn. unfold vinegar_react, expected. rewrite Hb.
@@ -209,7 +216,7 @@ Lemma words_go_ws_flush c s (w : bytes) : is_ws c = true -> w <> [] ->
 Proof.
   intros Hc Hw. cbn [words_go]. rewrite Hc. destruct (rev w) eqn:E.
   - apply (f_equal (@rev N)) in E. rewrite rev_involutive in E. cbn in E. congruence.
-  - rewrite <- E, rev_involutive. reflexivity.
+  - rewrite <- E, rev_append_rev, app_nil_r, rev_involutive. reflexivity.
 Qed.
 
 Lemma words_request_line m t v : token m = true -> token t = true -> token v = true ->
